@@ -72,6 +72,10 @@ pub struct Sc {
     /// the same address: what ran a moment ago must now be refused at the fetch
     #[serde(default)]
     pub refetch_revoked: bool,
+    /// zero-length areas that start *inside* the data area and the stack (an empty range overlaps nothing, so
+    /// they are accepted): every access at or above them still belongs to the area around them
+    #[serde(default)]
+    pub empties: bool,
 }
 
 pub struct E5Engine;
@@ -669,11 +673,12 @@ fn gen_insn(mode: &str, ci: usize, shape: Option<usize>, fault: &str, r: &mut Rn
         prelude_ret: k % 4 == 3,
         builtin: false,
         refetch_revoked: mode == "c06" && k % 8 == 2,
+        empties: k % 5 == 4,
     })
 }
 
 fn trivial(mode: &str) -> Sc {
-    Sc { mode: mode.into(), code_name: "Nopd".into(), shape: "reg".into(), fault: "none".into(), bytes: "90".into(), gpr: vec![0, 0, 0, 0, 0, 0, STACK + 0x800, 0, 0, 0, 0, 0, 0, 0, 0, 0], xmm_seed: 1, flags: 0, fs: 0, gs: 0, data_seed: 1, prot_data: 3, prot_stack: 3, prot_code: 5, extra_steps: 0, flips: vec![], flip_at: 0, poke: vec![], no_pad: false, shrunk: false, neighbour: false, prelude_ret: false, builtin: false, refetch_revoked: false }
+    Sc { mode: mode.into(), code_name: "Nopd".into(), shape: "reg".into(), fault: "none".into(), bytes: "90".into(), gpr: vec![0, 0, 0, 0, 0, 0, STACK + 0x800, 0, 0, 0, 0, 0, 0, 0, 0, 0], xmm_seed: 1, flags: 0, fs: 0, gs: 0, data_seed: 1, prot_data: 3, prot_stack: 3, prot_code: 5, extra_steps: 0, flips: vec![], flip_at: 0, poke: vec![], no_pad: false, shrunk: false, neighbour: false, prelude_ret: false, builtin: false, refetch_revoked: false, empties: false }
 }
 
 /// CPUID is the one implemented instruction whose behaviour is selected by a register *value* (the leaf in
@@ -1024,6 +1029,13 @@ fn setup_masked(sc: &Sc, ctx: &mut Ctx, hooks: bool, only: Option<([bool; 16], [
         }
         ax.mem_prot(STACK, sc.prot_stack & 7).map_err(|e| e.to_string())?;
         ax.mem_prot(CODE, sc.prot_code & 7).map_err(|e| e.to_string())?;
+        if sc.empties {
+            let a = matches!(catch(|| ax.mem_init_zero(DATA + 8, 0)), Ok(Ok(())));
+            let b = matches!(catch(|| ax.mem_init_area(STACK + 8, vec![])), Ok(Ok(())));
+            if a || b {
+                ctx.probe("empty_area_inside_operand_area");
+            }
+        }
         Ok(())
     });
     if !matches!(r, Ok(Ok(()))) {
